@@ -56,6 +56,23 @@ def generate(mode: str, rep: core.Report):
     return trees
 
 
+def generate_grow(tier: str, rep: core.Report):
+    if tier == "quick":
+        consts = 'MaxDepth = 3\nOpsUsed = {"+", "-", "*", "/", "=", "AND", "OR"}\nUnaryUsed = {"neg", "not", "isnull"}'
+    else:
+        consts = ('MaxDepth = 3\nOpsUsed = {"+", "-", "*", "/", "=", "<", "AND", "OR", "XOR"}\n'
+                  'UnaryUsed = {"neg", "not", "isnull", "in", "between", "betweenhi"}')
+    cfg = "CONSTANTS\n" + consts + "\nINIT Init\nNEXT Next\nINVARIANT ParseBack\nINVARIANT Emit\n"
+    r = tlc.run("MC_ExprGrow", cfg, workers=16, heap="6g", timeout=2500)
+    rep.add_tlc(r)
+    if r.violation:
+        raise core.MachineryError(f"the INTENDED renderer violates {r.violation} on a grown tree: spec bug\n{r.raw_tail[-1500:]}")
+    trees = r.json_tagged("T")
+    if len(trees) != r.distinct or not trees:
+        raise core.MachineryError(f"grow generator printed {len(trees)} trees for {r.distinct} states")
+    return trees
+
+
 def observe(trees):
     """render every tree under the six contexts; group identical token streams"""
     ctxs = core.contexts()
@@ -97,6 +114,10 @@ def judge(events, rep: core.Report):
 def run(tier: str) -> int:
     rep = core.Report("C06", tier)
     trees = generate("edge" if tier == "quick" else "full", rep)
+    grown = generate_grow(tier, rep)
+    have = {json.dumps(t, sort_keys=True) for t in trees}
+    trees += [t for t in grown if json.dumps(t, sort_keys=True) not in have]
+    rep.extra["grown_trees"] = len(grown)
     events = observe(trees)
     verdicts = judge(events, rep)
     rep.traces = len(events)
